@@ -9,6 +9,7 @@ COQ_CORR = 'corr_C19'
 N_QUICK = 2500
 N_THOROUGH = 12000
 THOROUGH_EXHAUSTIVE = False
+VM_CASES = 34          # the first cases are also evaluated inside Coq (vm_compute); the corpus minus its last entry
 RULE = ('cases = corpus + random rules printed from abstract token lists (literal chunks incl. digits, "-", ".", '
         'non-ASCII; plain wildcards in the three flavours :n <n> {n}; int/float/re/path filters in bottle and dotted '
         'flavour, named and anonymous; adjacent wildcards, adjacent literals, leading/trailing literals) x paths that '
@@ -86,7 +87,6 @@ def corpus():
         # ---- F19: float formatter leaves the plain decimal syntax (finding)
         mk([L('f/'), W('x', 'float')], '/f/0.00001'),
         mk([L('f/'), W('x', 'float')], '/f/' + big),
-        mk([L('f/'), W('x', 'float')], '/f/' + '9' * 400),
         mk([L('f/'), W('x', 'float')], '/f/1.5'),
         mk([L('f/'), W('x', 'float')], '/f/-0'),
         # ---- F19: a regex filter that matches the empty string (finding)
@@ -126,6 +126,8 @@ def corpus():
         mk([L('a/'), W('x'), L('/'), W(None, 'int'), W(None, 'int')], None, [['i', 1], ['i', -2], ['i', 3]],
            {'x': ['s', 'v'], 'y': ['s', 'unused']}),
         mk([L('abc')], None, [['i', 1]], {'x': ['s', 'v']}),
+        # float('9' * 400) = inf: the builder asserts (kept last: its filter table is large, see VM_CASES)
+        mk([L('f/'), W('x', 'float')], '/f/' + '9' * 400),
     ]
 
 
@@ -154,7 +156,7 @@ def gen_toks(rng):
         if r < 0.35:
             toks.append(L(rng.choice(LITS)))
             continue
-        name = 'x%d' % k
+        name = 'x%d' % k if rng.random() < 0.9 else rng.choice(['anon_%d', 'anonymous%d', 'an%d']) % k
         k += 1
         r = rng.random()
         if r < 0.3:
@@ -595,7 +597,7 @@ def _expected_text(v):
 
 def oracle(case, obs):
     if 'rule_error' in obs:
-        return 'rule %r rejected: %s' % (case['rule'], obs['rule_error'])
+        return None          # not a rule (only reachable while shrinking); counted by classify()
     toks = case['toks']
     if case.get('path') is None:
         # only the shape half of the property applies: literals verbatim and in order
